@@ -61,3 +61,16 @@ def cost (vars : List Item) (xs : List Rat) : Rat :=
   ((vars.zip xs).map fun p => p.1.w * (p.2 - p.1.t) * (p.2 - p.1.t)).sum
 
 end Labella.Chain
+
+namespace Labella.Chain
+
+/-- `xs` keeps every gap up to `eps`: `xsᵢ₊₁ − xsᵢ ≥ gapsᵢ − eps` -/
+def SepBy (eps : Rat) : List Rat → List Rat → Prop
+  | g :: gs, a :: b :: xs => g - eps ≤ b - a ∧ SepBy eps gs (b :: xs)
+  | _, _ => True
+
+/-- weighted squared distance between two placements of the same variables -/
+def wdist (vars : List Item) (xs zs : List Rat) : Rat :=
+  ((vars.zip (xs.zip zs)).map fun p => p.1.w * (p.2.2 - p.2.1) * (p.2.2 - p.2.1)).sum
+
+end Labella.Chain
